@@ -175,6 +175,16 @@ def run_case(c):
     if c.get("busy") and isinstance(cbs_arg, (list, tuple)) and form in ("list", "tuple"):
         busy_ = gen.busy_callback()
         cbs_arg = type(cbs_arg)(([busy_] if c["busy"] == "first" else []) + list(cbs_arg) + ([busy_] if c["busy"] == "last" else []))
+    if c.get("nested_same") and isinstance(cbs_arg, (list, tuple)) and form in ("list", "tuple"):
+        # re-entrant use: a user callback (LAST in the list) that, at the first epoch start, runs a complete one-epoch fit() of the SAME state
+        # (no callbacks); the outer run then goes on: its remaining events carry their own epoch and batch numbers
+        fired = []
+
+        def nest(s_, e_):
+            if not fired:
+                fired.append(e_)
+                s_.fit(data, epochs=1, pos_batch_size=B, lr=0.1, **({"input_bases": bases} if t != "positive" else {}))
+        cbs_arg = type(cbs_arg)(list(cbs_arg) + [LambdaCallback(on_epoch_start=nest)])
     kw = dict(epochs=E, pos_batch_size=B, starting_epoch=se, lr=0.1, k=1, callbacks=cbs_arg, time=c.get("time", False))
     if c.get("sched"):
         kw.update(scheduler=torch.optim.lr_scheduler.StepLR, scheduler_args={"step_size": 1, "gamma": 0.5})
@@ -248,9 +258,12 @@ def check_one(c):
              f"after a stop requested during {full[inject // ncb]} the remaining events are not what the protocol allows"),
             got=evs[-8:], allowed=[a[-8:] for a in allowed])
     # parameters change only between a batch-start and its batch-end
+    full_first_epoch = next((ev_[1] for ev_ in full if ev_[0] == "ES"), None)
     for i in range(len(trace) - 1):
         a, b_ = trace[i], trace[i + 1]
         in_batch = a[0] == "BS" and b_[0] == "BE"
+        if c.get("nested_same") and a[0] == "ES" and a[3] == ncb - 1 and a[1] == full_first_epoch:
+            continue        # the nested training run of the user's own callback happens here
         if not in_batch:
             require(a[4] == b_[4], "params-outside-batch", f"parameters changed between {a[:4]} and {b_[:4]} (outside a batch-start/batch-end window)")
     if trace:
@@ -289,6 +302,8 @@ def sampled(draw, tier):
     if c["N"] <= 6 and c["E"] - c["se"] <= 6 and draw(st.integers(0, 4)) == 0:
         # re-entrant use: one more callback that makes public library calls on the trained state (and trains another state) from inside every hook
         c["busy"] = draw(st.sampled_from(["first", "last"]))
+    if not c.get("busy") and c["N"] <= 6 and draw(st.integers(0, 5)) == 0:
+        c["nested_same"] = True
     mode = draw(st.sampled_from(["none", "preset", "inject", "inject", "inject"]))
     if mode == "preset":
         c["preset"] = True
